@@ -61,6 +61,7 @@ type Client struct {
 	JSON        JSONStyle `json:"json_style,omitempty"`
 	Param       ParamStyle `json:"param_style,omitempty"`
 	Compression string    `json:"compression,omitempty"`
+	Identity    bool      `json:"identity,omitempty"` // no compression, but say so explicitly ("identity")
 	Accept      []string  `json:"accept,omitempty"`
 	Msgs        [][]byte  `json:"msgs"`                    // proto-encoded request messages
 	MsgRaw      []bool    `json:"msg_raw,omitempty"`       // per message: send uncompressed although compression is declared
